@@ -729,9 +729,10 @@ func (c *fctx) block(list []ast.Stmt) []*Node {
 	return out
 }
 
-func (c *fctx) isErrNotNil(e ast.Expr) bool {
+// err != nil (op = token.NEQ) or err == nil (op = token.EQL) on a variable of type error
+func (c *fctx) isErrCmpNil(e ast.Expr, op token.Token) bool {
 	b, ok := ast.Unparen(e).(*ast.BinaryExpr)
-	if !ok || b.Op != token.NEQ {
+	if !ok || b.Op != op {
 		return false
 	}
 	id, ok := b.Y.(*ast.Ident)
@@ -842,9 +843,13 @@ func (c *fctx) stmt(s ast.Stmt) []*Node {
 		t.failf(x.Pos(), "%s is not modelled", x.Tok)
 	case *ast.IfStmt:
 		out := c.stmt(x.Init)
-		if x.Else == nil && c.isErrNotNil(x.Cond) {
-			body := c.sub(func(c2 *fctx) []*Node { return c2.block(x.Body.List) })
-			return append(out, &Node{Kind: "iferr", A: body})
+		if c.isErrCmpNil(x.Cond, token.NEQ) || c.isErrCmpNil(x.Cond, token.EQL) {
+			then := c.sub(func(c2 *fctx) []*Node { return c2.block(x.Body.List) })
+			els := c.sub(func(c2 *fctx) []*Node { return c2.stmt(x.Else) })
+			if c.isErrCmpNil(x.Cond, token.NEQ) {
+				return append(out, &Node{Kind: "iferr", A: then, B: els})
+			}
+			return append(out, &Node{Kind: "iferr", A: els, B: then})
 		}
 		if x.Else == nil && c.isNotLeading(x.Cond) {
 			body := c.sub(func(c2 *fctx) []*Node { return c2.block(x.Body.List) })
@@ -1097,10 +1102,15 @@ func printProg(sb *strings.Builder, ns []*Node, ind string) {
 		sb.WriteString("PCall " + q(n.Text) + " (\n" + ind)
 		printProg(sb, rest, ind)
 		sb.WriteString(")")
-	case "iferr", "ifnl", "for", "loop":
-		name := map[string]string{"iferr": "PIfErr", "ifnl": "PIfNL", "for": "PFor", "loop": "PLoop"}[n.Kind]
+	case "ifnl", "for", "loop":
+		name := map[string]string{"ifnl": "PIfNL", "for": "PFor", "loop": "PLoop"}[n.Kind]
 		sb.WriteString(name)
 		sub(n.A)
+		sub(rest)
+	case "iferr":
+		sb.WriteString("PIfErr")
+		sub(n.A)
+		sub(n.B)
 		sub(rest)
 	case "branch":
 		sb.WriteString("PBranch")
